@@ -1,5 +1,6 @@
 import Ysshra.Bridge.Attest
 import Ysshra.Spec.C06
+import Ysshra.Lemmas.Pkcs1
 /-
 C06 — attestation accepts only certificates signed by a device key chaining to the roots.
 -/
@@ -43,6 +44,103 @@ theorem c06_non_rsa (chainOK : Bool) (algo : Nat) (digest : Nat → Bytes) (sig 
     accepted" is not vacuous). -/
 theorem c06_two_encodings : ∀ h ∈ [3, 5, 6, 7], prefixNull h ≠ prefixNoNull h ∧
     ((prefixNoNull h).map List.length).getD 0 + 2 = ((prefixNull h).map List.length).getD 0 := by decide
+
+
+/-- The core, for every modulus length `k` at once: a left-padded encoded message of `k` bytes
+    passes `verifyPKCS1v15` exactly when it is one of the two full-length PKCS#1 v1.5 encoded
+    messages — `00 01 FF…FF 00 ‖ DigestInfo prefix ‖ digest` with the prefix that carries the NULL
+    parameter or the one without.  Every other string — any padding byte, the block type, the
+    separator, any identifier or digest byte replaced, padding shortened or shifted — is rejected;
+    and no index or slice expression goes out of range. -/
+theorem c06_em_iff (k : Nat) (p1 p2 d em : Bytes) (hlen : em.length = k)
+    (hk : p1.length + d.length + 11 ≤ k) (hp : p2.length ≤ p1.length) :
+    (∃ b, verifyEM k p1 p2 d em = some b) ∧
+    (verifyEM k p1 p2 d em = some true ↔
+      (em = Spec.C06.canonEM k p1 d ∨ em = Spec.C06.canonEM k p2 d)) := by
+  obtain ⟨h1, h2⟩ := verifyEM_iff k p1 p2 d em hlen hk hp
+  refine ⟨h1, ?_⟩
+  rw [h2, passes_iff k p1 d em hlen (by omega), passes_iff k p2 d em hlen (by omega)]
+
+/-- a modulus too short for the encoded message is always a rejection -/
+theorem c06_short_modulus (k : Nat) (p1 p2 d em : Bytes) (hk : k < p1.length + d.length + 11) :
+    verifyEM k p1 p2 d em = some false := by
+  simp [verifyEM, hk]
+
+theorem leftPad_length (input : Bytes) (size : Nat) : (leftPad input size).length = size := by
+  simp [leftPad]; omega
+
+/-- For the four supported hashes, with the prefix tables regenerated from signature.go:
+    verification of `sig` under the RSA key `(n, e)` succeeds iff `sig^e mod n`, left-padded to the
+    modulus length, is a full-length encoded message for the digest, in either DigestInfo encoding;
+    it never crashes. -/
+theorem c06_verify_iff (n e : Nat) (h : Nat) (hh : h ∈ [3, 5, 6, 7]) (dg sig : Bytes) (p1 p2 : Bytes)
+    (hp1 : Gen.Attest.hashPrefixes1.lookup h = some p1) (hp2 : Gen.Attest.hashPrefixes2.lookup h = some p2)
+    (hd : dg.length = hashSize h) :
+    (∃ b, verify n e p1 p2 dg sig = some b) ∧
+    (verify n e p1 p2 dg sig = some true ↔
+      (p1.length + dg.length + 11 ≤ modLen n ∧
+       let m := if n = 0 then 0 else modpow (bytesNat sig) e n
+       let em := leftPad (natBytes (m + 1) m) (modLen n)
+       (em = Spec.C06.canonEM (modLen n) p1 dg ∨ em = Spec.C06.canonEM (modLen n) p2 dg))) := by
+  have hple : p2.length ≤ p1.length := by
+    have hb := Bridge.Attest.prefix2_le_prefix1 h (by
+      simp only [List.mem_cons, List.not_mem_nil, or_false] at hh ⊢
+      rcases hh with rfl | rfl | rfl | rfl <;> simp)
+    rw [hp1, hp2] at hb; simpa using hb
+  unfold verify
+  by_cases hk : modLen n < p1.length + dg.length + 11
+  · simp only [hk, ↓reduceIte]
+    refine ⟨⟨_, rfl⟩, ?_⟩
+    constructor
+    · intro hx; cases hx
+    · rintro ⟨hx, _⟩; omega
+  · simp only [hk, ↓reduceIte]
+    have := c06_em_iff (modLen n) p1 p2 dg
+      (leftPad (natBytes ((if n = 0 then 0 else modpow (bytesNat sig) e n) + 1) (if n = 0 then 0 else modpow (bytesNat sig) e n)) (modLen n))
+      (leftPad_length _ _) (by omega) hple
+    refine ⟨this.1, ?_⟩
+    rw [this.2]
+    constructor
+    · intro hx; exact ⟨by omega, hx⟩
+    · rintro ⟨_, hx⟩; exact hx
+
+/-- Attestation as a whole: accepted iff the device certificate chains to the roots, the label
+    names a supported hash, the device key is RSA, and the signature value raised to the public
+    exponent is a full-length encoded message for that hash's digest of the to-be-signed bytes. -/
+theorem c06_attest_iff (chainOK : Bool) (algo : Nat) (digest : Nat → Bytes) (sig : Bytes) (key : PubKey) :
+    attest chainOK algo digest sig key = .accept ↔
+      (chainOK = true ∧ ∃ h n e p1 p2, algoSpec algo = .hash h ∧ key = .rsa n e ∧
+        prefixNull h = some p1 ∧ prefixNoNull h = some p2 ∧ (digest h).length = hashSize h ∧
+        verify n e p1 p2 (digest h) sig = some true) := by
+  unfold attest checkSignature
+  cases chainOK with
+  | false => simp
+  | true =>
+    simp only [Bool.not_true, Bool.false_eq_true, ↓reduceIte, true_and]
+    cases ha : algoSpec algo with
+    | insecure => simp
+    | unsupported => simp
+    | hash h =>
+      cases key with
+      | other => simp
+      | rsa n e =>
+        simp only [AlgoRes.hash.injEq, PubKey.rsa.injEq, exists_and_left, exists_eq_left']
+        cases hp1 : prefixNull h with
+        | none => simp
+        | some p1 =>
+          cases hp2 : prefixNoNull h with
+          | none => simp
+          | some p2 =>
+            simp only [Option.some.injEq, exists_eq_left']
+            by_cases hd : (digest h).length = hashSize h
+            · simp only [hd, ne_eq, not_true_eq_false, ↓reduceIte, true_and]
+              cases hv : verify n e p1 p2 (digest h) sig with
+              | none => simp [hv]
+              | some b =>
+                cases b
+                · simp [hv]
+                · simp only [true_iff]; exact ⟨n, e, ⟨rfl, rfl⟩, hv⟩
+            · simp [hd]
 
 end C06
 end Ysshra
